@@ -12,6 +12,7 @@ import (
 	"go/ast"
 	"go/parser"
 	"go/token"
+	"go/types"
 	"os"
 	"path/filepath"
 	"sort"
@@ -235,6 +236,142 @@ func leanIdent(s string) string {
 	r := []rune(s)
 	r[0] = []rune(strings.ToLower(string(r[0])))[0]
 	return string(r)
+}
+
+// ---------- program order of the topology hand-over ----------
+
+func findFunc(f *ast.File, name string) *ast.FuncDecl {
+	for _, d := range f.Decls {
+		if fd, ok := d.(*ast.FuncDecl); ok && fd.Name.Name == name && fd.Body != nil {
+			return fd
+		}
+	}
+	return nil
+}
+
+func isSel(x ast.Expr, name string) bool {
+	s, ok := x.(*ast.SelectorExpr)
+	return ok && s.Sel.Name == name
+}
+
+func callsMethod(n ast.Node, name string) bool {
+	found := false
+	ast.Inspect(n, func(m ast.Node) bool {
+		if c, ok := m.(*ast.CallExpr); ok && isSel(c.Fun, name) {
+			found = true
+		}
+		return !found
+	})
+	return found
+}
+
+// flagAssign: `<...>.serverChanged = true|false`
+func flagAssign(st ast.Stmt) (val string, ok bool) {
+	a, isA := st.(*ast.AssignStmt)
+	if !isA || len(a.Lhs) != 1 || len(a.Rhs) != 1 || !isSel(a.Lhs[0], "serverChanged") {
+		return "", false
+	}
+	id, isId := a.Rhs[0].(*ast.Ident)
+	if !isId || (id.Name != "true" && id.Name != "false") {
+		die("serverChanged is assigned something other than a boolean literal")
+	}
+	return id.Name, true
+}
+
+// tickerOrder: the order in which `if ...serverChanged { ... }` of eventloop.ticker touches the shared fields
+func tickerOrder(f *ast.File) []string {
+	fd := findFunc(f, "ticker")
+	if fd == nil {
+		die("eventloop.ticker not found")
+	}
+	var order []string
+	seen := false
+	for _, st := range fd.Body.List {
+		is, ok := st.(*ast.IfStmt)
+		if !ok || !isSel(is.Cond, "serverChanged") {
+			if _, isFlag := flagAssign(st); isFlag {
+				die("eventloop.ticker assigns serverChanged outside the `if serverChanged` block")
+			}
+			continue
+		}
+		if seen {
+			die("eventloop.ticker tests serverChanged twice")
+		}
+		seen = true
+		for _, b := range is.Body.List {
+			if v, isFlag := flagAssign(b); isFlag {
+				if v != "false" {
+					die("eventloop.ticker raises serverChanged")
+				}
+				order = append(order, "reset")
+				continue
+			}
+			rs, isRange := b.(*ast.RangeStmt)
+			if !isRange {
+				continue
+			}
+			x := types.ExprString(rs.X)
+			switch {
+			case strings.Contains(x, "ProxyPool") && callsMethod(rs.Body, "Close"):
+				order = append(order, "remove")
+			case strings.Contains(x, "ServerMap"):
+				order = append(order, "add")
+			case strings.Contains(x, "Replicasets"):
+				order = append(order, "table")
+			}
+		}
+	}
+	if !seen {
+		die("eventloop.ticker: no `if ...serverChanged` block")
+	}
+	return order
+}
+
+// publishOrder: the order of the writes of updateClusterNodes once isChanged said yes
+func publishOrder(f *ast.File) []string {
+	fd := findFunc(f, "updateClusterNodes")
+	if fd == nil {
+		die("updateClusterNodes not found")
+	}
+	var order []string
+	seen := false
+	for _, st := range fd.Body.List {
+		is, ok := st.(*ast.IfStmt)
+		if !ok || !callsMethod(is.Cond, "isChanged") {
+			if _, isFlag := flagAssign(st); isFlag {
+				die("updateClusterNodes assigns serverChanged outside the `if isChanged` block")
+			}
+			continue
+		}
+		seen = true
+		for _, b := range is.Body.List {
+			if v, isFlag := flagAssign(b); isFlag {
+				if v != "true" {
+					die("updateClusterNodes takes serverChanged down")
+				}
+				order = append(order, "flag")
+				continue
+			}
+			if callsMethod(b, "setServer") {
+				order = append(order, "setServer")
+			}
+			if callsMethod(b, "setReplicaset") {
+				order = append(order, "setReplicaset")
+			}
+		}
+	}
+	if !seen {
+		die("updateClusterNodes: no `if c.isChanged(...)` block")
+	}
+	return order
+}
+
+func leanStrList(l []string) string {
+	var q []string
+	for _, s := range l {
+		q = append(q, leanStr(s))
+	}
+	return "[" + strings.Join(q, ", ") + "]"
 }
 
 func main() {
@@ -553,6 +690,11 @@ func main() {
 	}
 	sort.Strings(yes)
 	fmt.Fprintf(&w, "-- documented as supported (%d): %s\n\n", len(yes), strings.Join(yes, " "))
+	// ---- hand-over of a new topology: program order on both sides ----
+	w.WriteString("-- order in which `if serverChanged { ... }` of eventloop.ticker touches the shared fields\n")
+	fmt.Fprintf(&w, "def tickerOrder : List String := %s\n", leanStrList(tickerOrder(parseFile(filepath.Join(repo, "core/eventloop.go")))))
+	w.WriteString("-- order of the writes of updateClusterNodes once a change was detected\n")
+	fmt.Fprintf(&w, "def publishOrder : List String := %s\n\n", leanStrList(publishOrder(parseFile(filepath.Join(repo, "core/cluster.go")))))
 	w.WriteString("end RcVerif.Gen\n")
 
 	// write only if changed (keeps lake's incremental build quiet)
